@@ -301,6 +301,41 @@ PLANS["C19"] = {
 }
 
 
+def _sync_tags(beh):
+    t = set()
+    last = {}
+    for i, a in enumerate(beh):
+        t.add("%s" % a["a"])
+        if i:
+            t.add("%s>%s:%s" % (beh[i - 1]["a"], a["a"], "same" if beh[i - 1]["i"] == a["i"] else "other"))
+    t.add("len%d" % len(beh))
+    t.add("commits%d" % sum(1 for a in beh if a["a"] == "Commit"))
+    return frozenset(t)
+
+
+def sync_consts(clones=("a", "b"), commits=3, steps=8):
+    return {"Clone": list(clones), "MaxCommit": commits, "MaxSteps": steps, "Mode": "gen"}
+
+
+from . import sync as _sync  # noqa: E402
+
+PLANS["C10"] = {
+    "clauses": ["C10_Converged", "C10_NoForeign", "C10_NeverRemoved"],
+    "module": "NotesSync.tla", "const_keys": ["Clone", "MaxCommit", "MaxSteps", "Mode"],
+    "executor": _sync.execute_sync, "tagger": _sync_tags, "end_event": {"ev": "reset", "run": "end"},
+    "quick": [
+        dict(name="two", consts=sync_consts(("a", "b"), 3, 8), invariants=["C10_Converged"], budget=150,
+             variants=[("-", "-")], per_tag=1),
+    ],
+    "thorough": [
+        dict(name="two", consts=sync_consts(("a", "b"), 4, 10), invariants=["C10_Converged"], budget=700,
+             variants=[("-", "-")], per_tag=1, timeout=2400),
+        dict(name="three", consts=sync_consts(("a", "b", "c"), 3, 8), invariants=["C10_Converged"], budget=500,
+             variants=[("-", "-")], per_tag=1, timeout=2400),
+    ],
+}
+
+
 def _core(pid, tier, seed):
     return core_check.run_core(pid, tier, seed, PLANS[pid])
 
